@@ -196,6 +196,9 @@ func cmdCheck(args []string) int {
 			for _, a := range res.Assumed {
 				assumed[a] = true
 			}
+			for _, a := range res.Inlined {
+				funcs = append(funcs, label+" ⊇ "+a+" (helper without a contract of its own, verified inlined)")
+			}
 			for _, m := range res.Unsupported {
 				unverified = append(unverified, label+": "+m)
 			}
